@@ -117,7 +117,7 @@ def realval(x):
 
 
 class Frame:
-    __slots__ = ("fn", "block", "ip", "locals", "ret_dest", "prev", "normal", "allocas", "visited", "summ")
+    __slots__ = ("fn", "block", "ip", "locals", "ret_dest", "prev", "normal", "allocas", "visited", "summ", "marks")
 
     def __init__(self, fn, ret_dest=None, normal=None):
         self.fn = fn
@@ -130,6 +130,7 @@ class Frame:
         self.allocas = []
         self.visited = {fn.entry}
         self.summ = {}
+        self.marks = {}
 
     def clone(self):
         f = Frame.__new__(Frame)
@@ -139,6 +140,7 @@ class Frame:
         f.allocas = list(self.allocas)
         f.visited = set(self.visited)
         f.summ = dict(self.summ)
+        f.marks = dict(self.marks)
         return f
 
 
@@ -219,6 +221,7 @@ class Engine:
         self._vars_cache = {}
         self._keep = []
         self.def_ids = set()
+        self._nf_cache = {}
         self.branch_ids = set()      # conditions assumed because of a branch taken (not harness assumptions)
         self.errvars = []       # rounded-mode error variables (name, bound)
         self.side = []          # global side constraints (atoms characterisations) as (z3 bool)
@@ -854,6 +857,22 @@ class Engine:
         self._keep.append(e)
         return e
 
+    def nf_key(self, e):
+        """key of a real term by its polynomial normal form: equal polynomials built differently share their engine atoms
+        (sqrt, exp, log, pow, opaque angles)"""
+        c = self._nf_cache.get(e.get_id())
+        if c is None:
+            try:
+                nf = z3.simplify(e, som=True, sort_sums=True)
+                c = nf.sexpr()
+                if len(c) > 100000:
+                    c = "id%d" % e.get_id()
+            except z3.Z3Exception:
+                c = "id%d" % e.get_id()
+            self._nf_cache[e.get_id()] = c
+            self._keep.append(e)
+        return c
+
     def slice_pc(self, pc, goal_exprs, strict=False):
         """cone of influence: conjuncts of pc (and side constraints) sharing variables with goal.
         strict: a branch condition is kept only when all its variables are already relevant (it never pulls new variables in) -
@@ -1203,6 +1222,8 @@ class Engine:
         fr.block = blk
         fr.ip = 0
         fr.visited.add(label)
+        if self.summarize_loops:
+            fr.marks[label] = len(st.user.get("store_log", ()))
 
     def op_br(self, st, fr, ins, work):
         self.goto(st, fr, ins.x[0])
@@ -1276,19 +1297,53 @@ class Engine:
             return False
         hv = st.user.setdefault("havoc", [])
         vals = []
+        vn = {}          # value number (term of the value flowing around the back edge) -> its havoc variable
+
+        def vkey(x):
+            return ("t", x.e.get_id()) if isinstance(x, SV) else ("c", repr(x))
+        latch = fr.block.name
         for ph in blk.phis:
             t = ph.ty.resolve()
             if t.k in ("float", "double") and self.fmode != "fp":
+                inc = None
+                for vop, lbl in ph.a:
+                    if lbl == latch:
+                        inc = self.val(st, fr, vop)
                 pre = st.user.get("havoc_preset", {}).get(len(hv))
                 if pre is not None:
-                    v = pre if isinstance(pre, SV) else SV(self.fterm(pre))
+                    v = pre if isinstance(pre, SV) else SV(self.fterm(pre, t))
                     st.trace.append("loop-carried %%%s stated equal to a harness value" % ph.dest)
+                elif inc is not None and vkey(inc) in vn:
+                    v = vn[vkey(inc)]
                 else:
                     v = SV(self.fresh("loop_" + ph.dest, z3.RealSort()))
+                if inc is not None:
+                    vn.setdefault(vkey(inc), v)
                 hv.append(v)
             else:
                 raise Inconclusive("loop summary: non-float loop-carried value %%%s" % ph.dest)
             vals.append((ph.dest, v))
+        # memory written since the header was entered is loop-carried state too: cells holding the value that flows around
+        # the back edge share its havoc variable (e.g. a variable kept both in a register and in its stack slot)
+        log = st.user.get("store_log", [])
+        seen_cells = set()
+        for addr, ty in log[fr.marks.get(header, 0):]:
+            ty = ty.resolve()
+            if (addr, ty.size) in seen_cells:
+                continue
+            seen_cells.add((addr, ty.size))
+            base, _sz = self.find_alloc(st, addr)
+            if base is None:
+                continue          # a callee's frame, already released
+            if ty.k not in ("float", "double") or self.fmode == "fp":
+                raise Inconclusive("loop summary: non-float memory written in the loop at %#x" % addr)
+            cur = self.load(st, addr, ty)
+            k2 = vkey(cur)
+            if k2 not in vn:
+                vn[k2] = SV(self.fresh("loop_mem", z3.RealSort()))
+                hv.append(vn[k2])
+            self.store(st, addr, ty, vn[k2])
+            st.trace.append("loop-carried memory cell %#x havocked" % addr)
         fr.summ[key] = True
         prev = fr.block.name
         for d, v in vals:
@@ -1367,6 +1422,8 @@ class Engine:
             if self.lockmon is not None:
                 self.lockmon.access(self, st, p, ins.ty.size, True, ins)
             self.store(st, p, ins.ty, v)
+            if self.summarize_loops and isinstance(p, int):
+                st.user.setdefault("store_log", []).append((p, ins.ty))
         fr.ip += 1
 
     def op_atomicrmw(self, st, fr, ins, work):
